@@ -603,25 +603,36 @@ func runC11(r *core.Run) {
 	type slotCase struct {
 		Format   string `json:"format"`
 		Template int    `json:"template"`
-		Byte     int    `json:"byte"`
+		Byte     int    `json:"byte"`  // -1: Fill is used
 		Shape    int    `json:"shape"` // 0: v   1: v v   2: a v b
+		Fill     core.S `json:"fill,omitempty"`
+		After    bool   `json:"after_a_plain_record"` // the template is not the first thing in the stream
 	}
 	slotTemplates := map[string][]string{
-		"fasta":  {">a\x00\nAC\n", ">a\nA\x00C\n>b\nG\n", "\x00\n>b\nG\n"},
-		"fastq":  {"@a\x00\nAC\n+\nII\n", "@a\nA\x00\n+\nI\x00\n@b\nC\n+\nI\n", "@a\nAC\n+\x00\nII\n"},
-		"bed":    {"c\x00\t0\t1\tn\x00\n", "c\t0\t1\tn\t0\t\x00\n", "c\t0\t1\tn\t0\t+\t0\t0\t1,2,\x00\n", "c\t\x00\t1\n"},
-		"newick": {"(a\x00,b);", "('a\x00',b);", "('\x00',b)'x\x00y';", "(a:1\x00,b);", "(a,b)\x00;(c);", "(a,b);\x00(c);"},
+		"fasta":  {">a\x00\nAC\n", ">a\nA\x00C\n>b\nG\n", "\x00\n>b\nG\n", ">\x00a\nAC\n"},
+		"fastq":  {"@a\x00\nAC\n+\nII\n", "@a\nA\x00\n+\nI\x00\n@b\nC\n+\nI\n", "@a\nAC\n+\x00\nII\n", "@\x00a\nAC\n+\nII\n"},
+		"bed":    {"c\x00\t0\t1\tn\x00\n", "c\t0\t1\tn\t0\t\x00\n", "c\t0\t1\tn\t0\t+\t0\t0\t1,2,\x00\n", "c\t\x00\t1\n", "\x00c\t0\t1\t\x00n\n"},
+		"newick": {"(a\x00,b);", "('a\x00',b);", "('\x00',b)'x\x00y';", "(a:1\x00,b);", "(a,b)\x00;(c);", "(a,b);\x00(c);", "(\x00a,b);"},
 		"ncbi":   {" A \x00\nA 1 2\n\x00 3 4\n", " A\nA 1\x00\n", "#\x00\n A\nA 1\n"},
-		"sam":    {"q\x00\t0\tr\x00\t1\t9\t1M\t*\t0\t0\tA\tI\tXZ:Z:\x00\n", "q\t0\tr\t1\t9\t\x00\t\x00\t0\t0\t\x00\t\x00\n", "q\t0\tr\t1\t9\t1M\t*\t0\t0\tA\tI\tXA:A:\x00\n", "@CO\t\x00\nq\t0\tr\t1\t9\t1M\t*\t0\t0\tA\tI\n", "q\t0\tr\t1\t9\t1M\t*\t0\t0\tA\tI\tX\x00:Z:v\n"},
+		"sam":    {"q\x00\t0\tr\x00\t1\t9\t1M\t*\t0\t0\tA\tI\tXZ:Z:\x00\n", "q\t0\tr\t1\t9\t\x00\t\x00\t0\t0\t\x00\t\x00\n", "q\t0\tr\t1\t9\t1M\t*\t0\t0\tA\tI\tXA:A:\x00\n", "@CO\t\x00\nq\t0\tr\t1\t9\t1M\t*\t0\t0\tA\tI\n", "q\t0\tr\t1\t9\t1M\t*\t0\t0\tA\tI\tX\x00:Z:v\n", "\x00q\t0\t\x00r\t1\t9\t1M\t*\t0\t0\tA\tI\n"},
 	}
-	r.Bound("all-bytes-in-templates", "per format 3..6 well-formed templates with a slot in every kind of text position (name, sequence, qualities, plus line, Chrom/Name/strand/RGB, unquoted and quoted Newick labels, lengths, between trees, NCBI labels/scores/comments, SAM text fields, Z/A tag values, tag names, header text): the slot filled with v, v v and a v b for ALL 256 byte values v")
-	core.Clause(r, "all-bytes-in-templates", core.Opts{Rule: "every byte value in every kind of text position of every format: the decoder ends without panic, and every accepted in-domain record is a fixed point of write -> read (a byte the reader gives a meaning to must be one the writer protects); non-trivial = all"},
+	plainFirst := map[string]string{"fasta": ">first\nAC\n", "fastq": "@first\nA\n+\nI\n", "bed": "first\t0\t1\tn\t0\t+\t0\t0\t1,2,3\n", "newick": "(x,y)first;\n", "ncbi": "# first\n", "sam": "first\t0\tr\t1\t9\t1M\t*\t0\t0\tA\tI\n"}
+	extraFills := []string{"\xef\xbb\xbf", "\xef\xbb\xbfx", "\xff\xfe", "\xfe\xff", "\xe2\x80\xa8", "\xc2\x85", "\xc2\xa0", "\x1f\x8b", "%s", "%d%%", "\\N", "NA", "[c]", "[", "]", "''", "\"\"", "a''b", "=", "*", ".", "..", "0x10", "1_0", "+1", "1e3", "00", "-0", "NaN", "Inf"}
+	r.Bound("all-bytes-in-templates", fmt.Sprintf("per format 3..7 well-formed templates with a slot in every kind of text position (name incl. its first byte, sequence, qualities, plus line, Chrom/Name/strand/RGB, unquoted and quoted Newick labels, lengths, between trees, NCBI labels/scores/comments, SAM text fields, Z/A tag values, tag names, header text): the slot filled with v, v v and a v b for ALL 256 byte values v and with %d multi-byte tokens (byte order marks, U+2028, NEL, NBSP, gzip magic, percent verbs, placeholders, brackets, doubled quotes, number spellings); each as the first thing in the stream and after a plain record", len(extraFills)))
+	core.Clause(r, "all-bytes-in-templates", core.Opts{Rule: "every byte value (and every listed token) in every kind of text position of every format, at the start of the stream and after another record: the decoder ends without panic, and every accepted in-domain record is a fixed point of write -> read (a byte the reader gives a meaning to must be one the writer protects; what the reader strips at the start of a stream it must also strip, or the writer protect, elsewhere); non-trivial = all"},
 		func(emit func(slotCase) bool) {
 			for _, f := range c11Formats {
 				for ti := range slotTemplates[f.name] {
-					for shape := 0; shape < 3; shape++ {
-						for v := 0; v < 256; v++ {
-							if !emit(slotCase{f.name, ti, v, shape}) {
+					for _, after := range []bool{false, true} {
+						for shape := 0; shape < 3; shape++ {
+							for v := 0; v < 256; v++ {
+								if !emit(slotCase{f.name, ti, v, shape, "", after}) {
+									return
+								}
+							}
+						}
+						for _, x := range extraFills {
+							if !emit(slotCase{f.name, ti, -1, 0, core.S(x), after}) {
 								return
 							}
 						}
@@ -631,8 +642,18 @@ func runC11(r *core.Run) {
 		},
 		func(c slotCase) core.Outcome {
 			f := c11Format_(c.Format)
-			fill := [][]byte{{byte(c.Byte)}, {byte(c.Byte), byte(c.Byte)}, {'a', byte(c.Byte), 'b'}}[c.Shape]
+			fill := c.Fill.B()
+			if c.Byte >= 0 {
+				fill = [][]byte{{byte(c.Byte)}, {byte(c.Byte), byte(c.Byte)}, {'a', byte(c.Byte), 'b'}}[c.Shape]
+			}
 			data := bytes.ReplaceAll([]byte(slotTemplates[c.Format][c.Template]), []byte{0}, fill)
+			if c.After {
+				first := plainFirst[c.Format]
+				if c.Format == "bed" { // all lines of a BED stream share one field count: the same template, filled plainly
+					first = strings.ReplaceAll(slotTemplates[c.Format][c.Template], "\x00", "z")
+				}
+				data = append([]byte(first), data...)
+			}
 			pr := f.run(data)
 			if pr.fail != "" {
 				return core.Failf("%s decoder on %q: %s", c.Format, data, trunc(pr.fail, 400))
